@@ -229,6 +229,18 @@ def one_history(ctx, case, explicit=None, instance=None):
         if fork_at is not None and len(r.history) == fork_at:
             fork_at = None
             _fork_and_judge(ctx, case, run, rng, fork_kind, completed)
+        if rng.random() < 0.15 and not fractional:
+            # other public calls between the dispatch and the first reading of the clock / of the
+            # completed set: walking through the scheduled operations, applying a built-in filter
+            # by hand to some of the ready operations
+            for _ in d.scheduled_operations():
+                pass
+            ready_now = d.raw_ready_operations()
+            if len(ready_now) >= 2 and not r.has_zero:
+                from job_shop_lib.dispatching import ready_operations_filter_factory
+                sub = ready_now[1:] if rng.random() < 0.5 else ready_now[:-1]
+                ready_operations_filter_factory(rng.choice(gen.FILTER_NAMES))(d, list(sub))
+            ctx.count("disturbing_iterations_and_manual_filter_calls")
         now = d.current_time()
         ctx.count("clock_steps_checked")
         if sib is not None and pending is None and sib.clock_exact \
